@@ -228,3 +228,22 @@ Proof. exact (KalmanSessionProofs.reachable_solved_is_fresh P X S E D O assign1 
 
 Print Assumptions C03_session_history_independence.
 Print Assumptions C03_reachable_solved_is_fresh.
+
+(* Round 5: the measurement block of the solution (fords/solutions.py: _solve_measurement_equations, REGENERATED from the
+   source into gen/MeasBlockGen.v by translator/measblock.py).  For every dimension and every invertible Jacobian F0 of
+   the measurement equations w.r.t. the measurement variables (not assumed diagonal or symmetric), the (Z, H, D) the code
+   computes make the observation equation  y = Z xi + D + H w  used by the filter EQUIVALENT to the model's linearised
+   measurement equations  F0 y + G0 xi + Hc + J0 w = 0. *)
+From Verif.gen Require MeasBlockGen.
+From Verif.proofs Require MeasBlockProofs.
+Theorem C03_measurement_block_solves (K : fieldType) (flog0 : K -> K) (flog2pi0 : K) (ny nxi nw0 na : nat)
+    (F0 : 'M[K]_ny) (G0 : 'M[K]_(ny, nxi)) (J0 : 'M[K]_(ny, nw0)) (Hc : 'cV[K]_ny) (Ua : 'M[K]_(nxi, na)) :
+  F0 \in unitmx ->
+  forall (y : 'cV[K]_ny) (xi : 'cV[K]_nxi) (w : 'cV[K]_nw0),
+    (F0 *m y + G0 *m xi + Hc + J0 *m w = 0) <->
+    (y = @MeasBlockGen.meas_Z (MC flog0 flog2pi0) ny nxi nw0 na F0 G0 J0 Hc Ua *m xi
+         + @MeasBlockGen.meas_D (MC flog0 flog2pi0) ny nxi nw0 na F0 G0 J0 Hc Ua
+         + @MeasBlockGen.meas_H (MC flog0 flog2pi0) ny nxi nw0 na F0 G0 J0 Hc Ua *m w).
+Proof. exact (@MeasBlockProofs.meas_block_solves K flog0 flog2pi0 ny nxi nw0 na F0 G0 J0 Hc Ua). Qed.
+
+Print Assumptions C03_measurement_block_solves.
